@@ -3,6 +3,7 @@ pub mod exact;
 pub mod fw;
 pub mod gen;
 pub mod mirror;
+pub mod model;
 pub mod props;
 pub mod rng;
 pub mod rt;
